@@ -160,7 +160,10 @@ func parseV1PortNumber(portStr string) (uint16, error) {
 func parseV1IPAddress(protocol AddressFamilyAndProtocol, addrStr string) (addr net.IP, err error) {
 	addr = net.ParseIP(addrStr)
 	tryV4 := addr.To4()
-	if (protocol == TCPv4 && tryV4 == nil) || (protocol == TCPv6 && tryV4 != nil) {
+	// the family of a TCP6 address is decided by its notation: an IPv4-mapped IPv6
+	// address (::ffff:a.b.c.d, what a dual-stack sender sees) is a valid TCP6 address
+	isV6Text := strings.Contains(addrStr, ":")
+	if addr == nil || (protocol == TCPv4 && tryV4 == nil) || (protocol == TCPv6 && !isV6Text) {
 		err = ErrInvalidAddress
 	}
 	return
